@@ -156,6 +156,10 @@ class _C17(Spec):
             e = (op, pat)
             w = [("Add", "A"), ("Add", "B")]
             sw = (op, swap(pat))
+            if sw not in entries:
+                # `Op@shape`: only the operand assignments whose events differ from the base shape's are listed; the
+                # swapped call on the same pair of sets behaves as the base entry says
+                sw = (op.split("@")[0], swap(pat))
             cands.append([e] + w)
             if sw in entries:
                 cands.append([e, sw] + w)
